@@ -101,9 +101,22 @@ def one_network(M, rec, rng, g, desc, built, tier):
         label = "numpy-user"
         opts = {o: True for o in OPTS if rng.random() < 0.2}
         case = dict(case0, pars=pars, vals=vals, opts=opts, engine=label, scalar_shape=shape_mode, regime=regime)
+        # the caller's floating-point error mode: ignore (this harness' default), NumPy's default (warn) with
+        # warnings turned into errors, or raise - away from the model's own 0/0 no signal is ever emitted
+        fpmode = rng.choice(("ignore", "ignore", "raise", "warnings-as-errors")) if not R.is_singular(desc, vals) else "ignore"
+        if any(isinstance(x, float) and math.isinf(x) for d_ in vals.values() for v_ in d_.values() for x in (v_ if isinstance(v_, list) else [v_])):
+            fpmode = "ignore"
         try:
-            built.net.step(init_conditions=drive.np_init(built, vals, shape_mode, int_dtype=as_int), engine=NE(), **opts, **kw)
+            import warnings
+
+            with np.errstate(all={"ignore": "ignore", "raise": "raise", "warnings-as-errors": "warn"}[fpmode]), warnings.catch_warnings():
+                if fpmode == "warnings-as-errors":
+                    warnings.simplefilter("error")
+                built.net.step(init_conditions=drive.np_init(built, vals, shape_mode, int_dtype=as_int), engine=NE(), **opts, **kw)
+            rec.seen("floating_point_error_modes", fpmode)
         except Exception as e:
+            if fpmode != "ignore":
+                label = label + f" [caller's floating-point error mode: {fpmode}]"
             _exc(rec, "step", label, e, case)
             continue
         rec.count("steps_ok")
@@ -141,9 +154,11 @@ def one_network(M, rec, rng, g, desc, built, tier):
             fx = None
             if not own:
                 _r, fx = g.values(desc, allow_inf=False)
-            cc = CC.CompileCase(M, rng, desc, pars, st, keys, {}, own_symbols=own, fixed_from=fx, fixed_prob=0.6)
+            cc = CC.CompileCase(M, rng, desc, pars, st, keys, {}, own_symbols=own, fixed_from=fx, fixed_prob=0.6, scaled_prob=0.3)
             if cc.fixed:
                 rec.count("symbolic_cases_with_variables_supplied_as_numbers")
+            if cc.scaled:
+                rec.count("symbolic_cases_with_inputs_given_as_expressions_of_user_symbols")
         except Exception as e:
             _exc(rec, "step with symbolic parameters", st, e, case_p)
             continue
@@ -250,6 +265,7 @@ def _read_vals(built, lay):
 
 
 def run(M, rec, tier, seed, k, n):
+    W.USER_KINDS["prob"] = 0.12  # user-defined origin / link kinds (README "Extensions")
     np.seterr(all="ignore")
     rng = random.Random(seed * 1000 + k + 700)
     g = G.NetGen(rng)
